@@ -1,6 +1,6 @@
 """Build and run the monitor driver mpmon (serves C01 C04 C06 C07 C09 C10 C12 C19 C20)."""
 import json, os, subprocess
-from . import build, run
+from . import build, run, nl_bin
 
 
 def exe(variant='asan'):
@@ -8,9 +8,21 @@ def exe(variant='asan'):
 
 
 def run_case(exe_path, workdir, stub, nl_text, opts=(), acc=None, flags=None, script=None, names=None, ampl=True, timeout=60, env_extra=None,
-             col=None, row=None):
+             col=None, row=None, binary=None):
     """Write stub.nl (+.col/.row), run `mpmon stub -AMPL opts...`; return dict(rc, out, err, trace[list], sol_bytes or None, timed_out, sig)."""
     base = os.path.join(workdir, stub)
+    # input format: about one run in four gets the equivalent binary NL file (deterministic in stub and text; binary=False/True forces it)
+    fmt = 'b' if isinstance(nl_text, bytes) else 't'
+    if isinstance(nl_text, str) and binary is not False:
+        v = nl_bin.pick(stub, nl_text) if binary is None else 1
+        b = nl_bin.text_to_binary(nl_text, v) if v else None
+        if b is not None:
+            nl_text, fmt = b, 'b'
+    try:
+        fd = os.open(os.path.join(workdir, '.nlfmt'), os.O_WRONLY | os.O_APPEND | os.O_CREAT, 0o644)
+        os.write(fd, fmt.encode()); os.close(fd)
+    except OSError:
+        pass
     mode = 'wb' if isinstance(nl_text, bytes) else 'w'
     with open(base + '.nl', mode) as f:
         f.write(nl_text)
@@ -47,5 +59,5 @@ def run_case(exe_path, workdir, stub, nl_text, opts=(), acc=None, flags=None, sc
                 except ValueError:
                     trace.append({'ev': 'unparsable', 'raw': l[:300]})
     sol = open(base + '.sol', 'rb').read() if os.path.isfile(base + '.sol') else None
-    r.update(trace=trace, sol=sol, cmd=cmd, env=env, base=base)
+    r.update(trace=trace, sol=sol, cmd=cmd, env=env, base=base, nl_format=fmt)
     return r
